@@ -7,7 +7,7 @@ from __future__ import annotations
 import types
 
 from vf import repo_env
-from vf.engine_xh import Violation
+from vf.engine_xh import Violation, deadline
 from vf.runner import Harness, register
 
 repo_env.setup()
@@ -64,6 +64,8 @@ class Net:
                 pass
 
             def send(self, b):
+                if getattr(net, "dead", False):
+                    raise ConnectionRefusedError("shm server is gone")  # what a connected UDP socket reports for a closed port
                 inbox, outbox = [bytes(b), api.ser(api.ShutdownCommand())], []
                 net.srv.sock = types.SimpleNamespace(recvfrom=lambda n: (inbox.pop(0), "c"), sendto=lambda data, addr: outbox.append(data), close=lambda: None)
                 net.srv.start()
@@ -84,7 +86,7 @@ DESER = ["cloudpickle.loads", "mymod.decode", ""]
 class ShmClient(Harness):
     name = "shm-client-roundtrip"
     engine = "E1-crosshair"
-    properties = ("C07", "C09")
+    properties = ("C07", "C09", "C05")
     rule = "one path = a short script of client calls (allocate+write+close, get+read+close, purge, redundant allocate) over two keys with a decoding function from a palette; non-trivial = >=2 calls"
     assumptions = ["datagram socket -> one synchronous dispatch of the real LocalServer loop per request", "bytearray-backed shared memory with POSIX name semantics",
                    "no memory pressure (capacity 64, datasets <= 8 bytes); time.sleep is a no-op"]
@@ -178,6 +180,17 @@ class ShmClient(Harness):
                     raise Violation("store-contents-differ-from-what-clients-did", f"{sorted(mgr.datasets)} vs {sorted(written)}")
                 if mgr.free_space != 64 - sum(len(v[0]) for v in written.values()):
                     raise Violation("free-space-accounting", f"{mgr.free_space}")
+                # the server dies: a client call must come back (with an error) instead of retrying forever - a worker blocked
+                # in it would never handle its shutdown message
+                client.socket.dead = True
+                for call in (lambda: client.get("k0", timeout_sec=0.3), lambda: client.purge("k1"), lambda: client.allocate("kz", 4, "d", timeout_sec=0.3)):
+                    try:
+                        with deadline(10, "client-call-never-returns-when-the-server-is-gone"):
+                            call()
+                    except Violation:
+                        raise
+                    except Exception:
+                        pass
             finally:
                 dataset.SharedMemory = old
 
